@@ -10,6 +10,10 @@ from .facts import kids, walk
 
 from .facts import AnalysisBroken as _Broken
 
+# member functions of the standard containers that have a non-const overload but change nothing (the non-const overload only hands out a non-const
+# iterator / reference); map::operator[] is NOT one of them (it inserts)
+STD_READERS = {'find', 'begin', 'end', 'rbegin', 'rend', 'at', 'front', 'back', 'lower_bound', 'upper_bound', 'equal_range', 'data', 'top', 'get'}
+
 COMMUT = {'+', '*', '&&', '||', '==', '!=', '&', '|', '^'}
 
 
@@ -132,7 +136,8 @@ class LocalEnv:
             r = None
             if k == 'CXXMemberCallExpr':
                 me = n['c'][0]
-                if me.get('k') == 'MemberExpr' and not (n.get('callee') or '').endswith(' const') and (n.get('callee_name') or '').startswith('std::'):
+                if me.get('k') == 'MemberExpr' and not (n.get('callee') or '').endswith(' const') and (n.get('callee_name') or '').startswith('std::') and \
+                        (n.get('callee_name') or '').rsplit('::', 1)[-1] not in STD_READERS:
                     path_members((me.get('c') or [None])[0])
             elif k == 'CXXOperatorCallExpr' and n.get('op') in ASSIGN + ('++', '--'):
                 if len(n.get('c') or ()) > 1 and not (n.get('callee') or '').endswith(' const'):
@@ -144,7 +149,8 @@ class LocalEnv:
             if k == 'CXXMemberCallExpr':
                 me = n['c'][0]
                 base = (me.get('c') or [None])[0] if me.get('k') == 'MemberExpr' else None
-                if base is not None and not (n.get('callee') or '').endswith(' const'):
+                if base is not None and not (n.get('callee') or '').endswith(' const') and \
+                        not ((n.get('callee_name') or '').startswith('std::') and (n.get('callee_name') or '').rsplit('::', 1)[-1] in STD_READERS):
                     r = root(base)
             elif k == 'CXXOperatorCallExpr' and n.get('op') in ASSIGN + ('++', '--', '[]', '<<', '>>'):
                 c = n['c']
